@@ -567,6 +567,51 @@ func runC14(c *Ctx) {
 			r.Pass("lock/no-unsubscribe-under-lock", key, p.posStr(fd.Pos()), "unsubscribe happens outside the sorted-set mutex")
 		}
 	}
+	// (5b) the weight subscription of addSorted is registered with the initial trigger: its first
+	// invocation carries the zero value as "previous weight", not a weight the element ever had. The
+	// callback must therefore position the element from its new weight alone - it must not read the
+	// previous-value parameter (deciding the direction of the move, or whether to move at all, from
+	// new vs previous mis-places every element whose first weight is not above the zero value).
+	if fd := p.FuncDecl(pkg, "sortedSet", "addSorted"); fd == nil {
+		r.Unresolved("sorted/initial-trigger-ignores-previous", pkg+".sortedSet.addSorted", "method not found")
+	} else {
+		n, bad := 0, ""
+		ast.Inspect(fd.Body, func(nd ast.Node) bool {
+			cl, ok := nd.(*ast.CallExpr)
+			if !ok || len(cl.Args) != 2 || rawKey(cl.Args[1]) != "true" {
+				return true
+			}
+			se, ok := ast.Unparen(cl.Fun).(*ast.SelectorExpr)
+			if !ok || se.Sel.Name != "OnUpdate" {
+				return true
+			}
+			for _, cb := range callbacksIn(p, info, cl.Args[0]) {
+				ps := cb.Params(info)
+				if len(ps) != 2 {
+					continue
+				}
+				n++
+				if ps[0] == nil || ps[0].Name() == "_" {
+					continue
+				}
+				ast.Inspect(cb.Body, func(m ast.Node) bool {
+					if id, isId := m.(*ast.Ident); isId && info.Uses[id] == ps[0] && bad == "" {
+						bad = p.posStr(id.Pos()) + ": the weight callback reads its previous-value parameter " + id.Name + ", which is the zero value on the initial invocation"
+					}
+					return true
+				})
+			}
+			return true
+		})
+		switch {
+		case n == 0:
+			r.Fail("sorted/initial-trigger-ignores-previous", pkg+".sortedSet.addSorted", p.posStr(fd.Pos()), "no weight subscription with the initial trigger found (vacuous)")
+		case bad != "":
+			r.Fail("sorted/initial-trigger-ignores-previous", pkg+".sortedSet.addSorted", p.posStr(fd.Pos()), bad)
+		default:
+			r.Pass("sorted/initial-trigger-ignores-previous", pkg+".sortedSet.addSorted", p.posStr(fd.Pos()), "the weight callback positions the element from the new weight alone")
+		}
+	}
 	// (6) counter monitor
 	if fd := p.FuncDecl(pkg, "counter", "Monitor"); fd == nil {
 		r.Unresolved("counter/condition-memory", pkg+".counter.Monitor", "method not found")
